@@ -129,6 +129,13 @@ def build_harness():
     if not os.path.exists(lock):
         shutil.copy(os.path.join(REPO, "Cargo.lock"), lock)
     rc, out = sh(["cargo", "build", "--offline"], cwd=HARNESS, timeout=3600)
+    plain = os.path.join(ROOT, "harness-plain")
+    if rc == 0 and os.path.isdir(plain):
+        lock = os.path.join(plain, "Cargo.lock")
+        if not os.path.exists(lock):
+            shutil.copy(os.path.join(REPO, "Cargo.lock"), lock)
+        rc, out2 = sh(["cargo", "build", "--offline"], cwd=plain, timeout=3600)
+        out += out2
     return rc, out
 
 
